@@ -8,6 +8,7 @@
   counting reference (k-th formula in expansion order gets entry k mod len).
 -/
 import YalafiVerif.Model.Expander
+import YalafiVerif.Proofs.InlineShape
 namespace Yalafi
 
 theorem C10_rot_length (l : List Str) : (rotL l).length = l.length := by
@@ -46,5 +47,28 @@ theorem C10_detectParts_tok (ts cur : List Tok) :
       · split at hit <;> simp_all
       · subst hit; injection ht with ht; subst ht; simpa using hx
       · exact ih _ it hit t ht
+
+/-- the rendering of an inline formula: for every non-empty list of maths tokens that is not only
+    maths space, every placeholder collection `repls ≠ []` and every other parameter, the section
+    is rendered as  [blank] placeholder [punctuation] [blank]  — blank iff the formula starts / ends
+    with a maths space, placeholder = the next one of the collection (which is rotated by exactly
+    one), punctuation = the last non-blank character if it is a punctuation mark — all tokens
+    position-fixed at the first token of the formula (`inlineShape_fix_pos`); nothing else -/
+theorem C10_inline_shape (T : PTables) (opText : List (Str × Str)) (opDefault : Option Str) (toks : List Tok)
+    (firstSection nextRepl : Bool) (repls : List Str)
+    (hm : ∀ t ∈ toks, isMathTok t = true) (hts : toks ≠ [])
+    (hns : ¬ ∀ t ∈ toks, t.kind = .mathSpace) (hrepls : repls ≠ []) :
+    ∃ rs, replaceSection T opText opDefault true (detectMathParts toks []) firstSection nextRepl repls = some rs ∧
+      rs.repls = rotL repls ∧ rs.firstPart = !firstSection ∧
+      rs.out = inlineShape T toks (toks.head hts) (toks.getLast hts) ((rotL repls).head (rotL_ne_nil repls hrepls)) :=
+  replaceSection_inline_mathToks T opText opDefault toks firstSection nextRepl repls hm hts hns hrepls
+
+theorem C10_inline_shape_tokens (T : PTables) (ts : List Tok) (t0 tl : Tok) (r0 : Str) :
+    (∀ t ∈ inlineShape T ts t0 tl r0, t.fix = true ∧ t.pos = t0.pos) ∧
+    (inlineShape T ts t0 tl r0).map (fun t => (t.kind, t.txt)) =
+      (if t0.kind = .mathSpace then [(Kind.space, [' '])] else []) ++ [(Kind.text, r0)]
+      ++ (match partPunct T ts with | some c => [(Kind.text, [c])] | none => [])
+      ++ (if tl.kind = .mathSpace then [(Kind.space, [' '])] else []) :=
+  ⟨inlineShape_fix_pos T ts t0 tl r0, inlineShape_kinds T ts t0 tl r0⟩
 
 end Yalafi
